@@ -265,7 +265,7 @@ func F2(thorough bool) []*Program {
 	}
 	// context.Context supplied by a provider of the graph (and by a struct field), with and
 	// without Async providers: the injector still takes its own context when something is Async
-	add(&Program{Desc: "context supplied by a provider", Types: typeNames(4), Decls: []Decl{{
+	add(&Program{Desc: "context supplied by a provider", SignatureOnly: true, Types: typeNames(4), Decls: []Decl{{
 		Name: "InitP", Request: "*T0", Provs: []Prov{
 			fn("NewT1", nil, []string{"*T1"}, false),
 			fn("NewCtx", []string{"*T1"}, []string{"context.Context"}, false),
